@@ -38,6 +38,27 @@ def _limits(mem_gb):
     return f
 
 
+_children = set()
+
+
+def _kill_children(*a):
+    for p in list(_children):
+        try:
+            os.killpg(p.pid, signal.SIGKILL)
+        except Exception:
+            pass
+    if a:   # called as a signal handler
+        os._exit(143)
+
+
+atexit.register(_kill_children)
+for _sig in (signal.SIGTERM, signal.SIGINT, signal.SIGHUP):
+    try:
+        signal.signal(_sig, _kill_children)
+    except Exception:
+        pass
+
+
 def run_limited(cmd, timeout, mem_gb=None, cwd=None, env=None, cancel=None):
     """run cmd in its own process group with wall/memory limits. returns (rc, out, err, wall, maxrss_kb, timed_out)"""
     t0 = time.time()
@@ -45,6 +66,7 @@ def run_limited(cmd, timeout, mem_gb=None, cwd=None, env=None, cancel=None):
     tf.close()
     p = subprocess.Popen(['/usr/bin/time', '-f', '%M', '-o', tf.name] + cmd, stdout=subprocess.PIPE, stderr=subprocess.PIPE, text=True,
                          preexec_fn=_limits(mem_gb), cwd=cwd, env=env)
+    _children.add(p)
     to = False
     deadline = time.time() + timeout
     while True:
@@ -60,6 +82,7 @@ def run_limited(cmd, timeout, mem_gb=None, cwd=None, env=None, cancel=None):
                     pass
                 out, err = p.communicate()
                 break
+    _children.discard(p)
     rss = 0
     try:
         txt = open(tf.name).read().strip().split('\n')[-1]
